@@ -174,7 +174,7 @@ def _boundaries(packets):
         yield pos
 
 
-def run_one(kind, stream, cuts, idle_steps, settings, cb, split_at=None):
+def run_one(kind, stream, cuts, idle_steps, settings, cb, split_at=None, resume_at=None):
     """split_at: byte offset (a packet boundary) at which the gateway drops the link; the rest of the stream arrives
     on the connection the client opens next."""
     async def scenario(sim):
@@ -202,6 +202,10 @@ def run_one(kind, stream, cuts, idle_steps, settings, cb, split_at=None):
                     return
                 await asyncio.sleep(0.05)
                 conn = sim.conns[-1]
+                if resume_at is not None:
+                    pos = resume_at          # the rest of the packet that was cut never arrives: a new link starts with a whole packet
+                    if c <= pos:
+                        continue
             if c > pos:
                 conn.feed(stream[pos:c])
                 pos = c
@@ -293,6 +297,28 @@ def run_shard(spec, acc):
                     judge(sim, stats, want, acc, kind, "continued_after_reconnect", cuts, settings, cb, stream, undel, True)
                 else:
                     acc.count("second_connection_not_opened")
+            # the link dies in the middle of a packet; the next connection starts with the following packet. The cut packet
+            # is lost (binary clients) or handed over as the partial line the stream reader returns at end of stream
+            bl = sorted(bset)
+            if len(bl) > 8:
+                k = len(bl) // 2 + rng.randint(-3, 3)
+                p_start, p_end = bl[k - 1], bl[k]
+                if p_end - p_start >= 4:
+                    mid = rng.randint(p_start + 1, p_end - 1)
+                    pk2 = list(packets)
+                    idx = next(i for i, e in enumerate(_boundaries(packets)) if e == p_end)
+                    if kind in ("yd", "actisense"):
+                        pk2[idx] = stream[p_start:mid]
+                    else:
+                        del pk2[idx]
+                    want2, undel2 = expected_messages(kind, pk2, settings)
+                    cuts = sorted(rng.sample(range(1, len(stream)), min(20, len(stream) - 1)))
+                    sim, stats = run_one(kind, stream, cuts, 1, settings, cb, split_at=mid, resume_at=p_end)
+                    if sim is not None and len(sim.conns) >= 2:
+                        acc.count("sessions_link_lost_mid_packet")
+                        judge(sim, stats, want2, acc, kind, "link_lost_mid_packet_then_reconnect", cuts, settings, cb, stream, undel2, True)
+                    else:
+                        acc.count("second_connection_not_opened")
 
 
 def judge(sim, stats, want, acc, kind, label, cuts, settings, cb, stream, undel, inside):
